@@ -533,6 +533,21 @@ impl Function {
         matches!(self, Function::CurrentDate | Function::Random)
     }
 
+    /// Check if the function looks into the file (content or extended attributes).
+    pub fn reads_file_content(&self) -> bool {
+        #[cfg(unix)]
+        if self == &Function::HasXattr || self == &Function::Xattr {
+            return true;
+        }
+
+        #[cfg(target_os = "linux")]
+        if self == &Function::HasCapabilities || self == &Function::HasCapability {
+            return true;
+        }
+
+        self == &Function::Contains
+    }
+
     /// Check if the function is a boolean function, i.e. it returns a boolean value.
     pub fn is_boolean_function(&self) -> bool {
         #[cfg(unix)]
@@ -576,6 +591,14 @@ pub fn get_value(
     entry: Option<&DirEntry>,
     file_info: &Option<FileInfo>,
 ) -> Variant {
+    // functions that look into the file never open pipes, sockets or devices
+    let entry = match function {
+        Some(function) if function.reads_file_content() => {
+            entry.filter(|entry| crate::util::is_content_readable(&entry.path()))
+        }
+        _ => entry,
+    };
+
     //* Refer to the Function enum for a list of available functions and their descriptions
     match function {
         // ===== String functions =====
